@@ -467,7 +467,7 @@ theorem inv_ev_attemptFails_h1 (cfg : Cfg) (s : St) (hi : Inv cfg s) (hg : evGua
   simp only [evGuard, Bool.and_eq_true, beq_iff_eq, Bool.not_eq_true', Bool.or_eq_true, bne_iff_ne, ne_eq] at hg
   obtain ⟨b1, b2, b3, b4, b5, b6, b7⟩ := H1 hs
   clear H1 H2 H3
-  simp only [evApply]
+  simp only [evApply, hs]
   inv_stack hs
 
 set_option maxHeartbeats 800000 in
@@ -481,7 +481,7 @@ theorem inv_ev_attemptFails_h2 (cfg : Cfg) (s : St) (hi : Inv cfg s) (hg : evGua
   simp only [evGuard, Bool.and_eq_true, beq_iff_eq, Bool.not_eq_true', Bool.or_eq_true, bne_iff_ne, ne_eq] at hg
   obtain ⟨b1, b2, b3, b4, b5, b6, b7, b8⟩ := H2 hs
   clear H1 H2 H3
-  simp only [evApply]
+  simp only [evApply, hs]
   inv_stack hs
 
 set_option maxHeartbeats 800000 in
@@ -495,7 +495,7 @@ theorem inv_ev_attemptFails_h3 (cfg : Cfg) (s : St) (hi : Inv cfg s) (hg : evGua
   simp only [evGuard, Bool.and_eq_true, beq_iff_eq, Bool.not_eq_true', Bool.or_eq_true, bne_iff_ne, ne_eq] at hg
   obtain ⟨b1, b2, b3, b4, b5, b6, b7, b8⟩ := H3 hs
   clear H1 H2 H3
-  simp only [evApply]
+  simp only [evApply, hs]
   inv_stack hs
 
 theorem inv_ev_attemptFails (cfg : Cfg) (s : St) (hi : Inv cfg s) (hg : evGuard cfg s .attemptFails = true) :
